@@ -225,3 +225,58 @@ def rule_L2_guarded_by(mod, rep, config="pthread"):
             ok = any(p[-1] == ("f", "GlobalLU_t", "nsuper") for p in g.paths(c.ops[2]))
             rep.check(ok, "L2", "%s#NewNsuper-arg" % g.name, "NewNsuper is applied to &Glu->nsuper", "NewNsuper is applied to %s" % fmt_paths(g, g.paths(c.ops[2])), c.loc, g.name)
     rep.stats["L2.worker_context_functions"] = len(wc)
+
+
+def rule_L3_new_supernode_atomic(mod, rep):
+    """D1 of C09: supernode numbers (NewNsuper) and subscript storage (Glu_alloc LSUB) must be issued in the same order,
+    or the fixupL post-pass must not depend on that order."""
+    rep.rule("L3", "(A) at every new-supernode site the NewNsuper call and the following Glu_alloc(...,LSUB,...) call lie in one common critical section, or "
+             "(B) fixupL has no read of Glu->lsub[] reachable after a write of Glu->lsub[] (it compacts through a copy), so its result does not depend on "
+             "storage order == supernode-number order", floor=8)
+    LSUB = mod.enums.get("LSUB")
+    f = mod.funcs.get("fixupL")
+    B_ok = False
+    if f is None:
+        rep.brk("ANALYSIS-BROKEN L3: fixupL not found")
+    else:
+        rep.scope(["fixupL"])
+        kG = f.pindex("Glu")
+        lds = [i for i in f.insts() if i.op == "load" and addr_is_elem_of(f, i, "lsub", "GlobalLU_t")]
+        sts = [i for i in f.insts() if i.op == "store" and addr_is_elem_of(f, i, "lsub", "GlobalLU_t")]
+        r = f.reach(sts) if sts else set()
+        haz = [l for l in lds if l.i in r]
+        B_ok = bool(sts) and not haz
+        rep.stats["L3.fixupL"] = {"lsub_loads": len(lds), "lsub_stores": len(sts), "loads_after_store": len(haz)}
+        if B_ok:
+            rep.ok("L3", "fixupL#hazard-free", "fixupL never reads Glu->lsub[] after writing it: in-place order dependence is gone", f.file, f.name)
+        else:
+            rep.note("L3: fixupL compacts lsub[] in place (%d reads reachable after a write): correctness depends on discipline (A)" % len(haz))
+    sites = 0
+    for pat in ("p?gstrf_column_dfs", "p?gstrf_snode_dfs"):
+        for prec, g in fam(mod, pat):
+            rep.scope([g.name])
+            held_at, _ = locksets(mod, g)
+            for c in g.calls("NewNsuper"):
+                sites += 1
+                allocs = [a for a in g.calls("Glu_alloc") if is_const(a.ops[3], LSUB)]
+                r = g.reach([c])
+                nxt = [a for a in allocs if a.i in r]
+                key = "%s#new-supernode" % g.name
+                common = None
+                if nxt:
+                    between = g.reach([c], stop=lambda x: x in nxt)
+                    hs = [held_at.get(c.i) or frozenset()] + [held_at.get(x) or frozenset() for x in between]
+                    common = frozenset.intersection(*hs)
+                A_ok = bool(nxt) and bool(common)
+                if A_ok:
+                    rep.ok("L3", key, "supernode number and subscript storage issued under %s" % sorted(common), c.loc, g.name)
+                elif B_ok:
+                    rep.ok("L3", key, "number/storage issued under different locks, harmless because fixupL is order-independent (B)", c.loc, g.name)
+                else:
+                    rep.fail("L3", key, "supernode number (NewNsuper, NSUPER_LOCK) and its subscript storage (Glu_alloc LSUB, LLOCK) are issued under different locks "
+                             "while fixupL compacts lsub[] in place in supernode-number order: with T1:NewNsuper->k, T2:NewNsuper->k+1, T2:Glu_alloc, T1:Glu_alloc "
+                             "supernode k's compaction overwrites supernode k+1's unread subscripts (wrong L, wrong X with info=0)", c.loc, g.name)
+    if f is not None and not B_ok and sites == 0:
+        rep.brk("ANALYSIS-BROKEN L3: no NewNsuper call sites found")
+    if f is not None and not B_ok:
+        pass
